@@ -130,7 +130,10 @@ def frame_stubs(w):
     from . import poseidon
     def frame(nread, nwrite):
         def h(it, a):
-            if not w.race: return NotImplemented
+            if not w.race:
+                # sequential continuation: data values never influence control flow or addresses in the builders, so the permutation is
+                # replaced by a cheap stand-in with the same frame (reads nread words, writes nwrite words)
+                w.load_bytes(a[1], 8 * nread); w.store_bytes(a[0], 8 * nwrite, [0] * nwrite); return None
             w.acc.append(('R', a[1].obj, a[1].off, 8 * nread)); w.acc.append(('W', a[0].obj, a[0].off, 8 * nwrite)); return None
         return h
     w.hooks[poseidon.HFR['seq']] = frame(12, 12); w.hooks[poseidon.HFR['avx']] = frame(12, 12); w.hooks[poseidon.HFR['avx512']] = frame(24, 24)
